@@ -269,18 +269,11 @@ func Describe(root *ggql.Root, o DescribeOpts) string {
 		blocks = append(blocks, head+"\n"+strings.Join(lines, "\n"))
 	}
 	// directives
-	for _, line := range strings.Split(root.SDL(true), "\n") {
-		if !strings.HasPrefix(line, "directive @") {
+	for _, d := range rootDirectives(root) {
+		if d.Core() {
 			continue
 		}
-		name := line[len("directive @"):]
-		if i := strings.IndexAny(name, "( "); i >= 0 {
-			name = name[:i]
-		}
-		d, ok := root.GetType(name).(*ggql.Directive)
-		if !ok || d.Core() {
-			continue
-		}
+		name := d.Name()
 		var locs []string
 		for _, on := range d.On {
 			locs = append(locs, string(on))
@@ -330,4 +323,26 @@ func impliedSchema(root *ggql.Root) *ggql.Schema {
 	}
 	sch, _ := reflect.NewAt(f.Type(), unsafe.Pointer(f.UnsafeAddr())).Elem().Interface().(*ggql.Schema)
 	return sch
+}
+
+// rootDirectives returns the directive definitions of a root, those that share their name with a type
+// included (GetType answers with the type then, and no other accessor lists directives: they are
+// read from the root's unexported table).
+func rootDirectives(root *ggql.Root) (out []*ggql.Directive) {
+	_ = root.Types() // (initialises a fresh root)
+	f := reflect.ValueOf(root).Elem().FieldByName("dirs")
+	if !f.IsValid() || f.Kind() != reflect.Ptr || f.IsNil() {
+		return nil
+	}
+	l := f.Elem().FieldByName("list")
+	if !l.IsValid() || l.Kind() != reflect.Slice {
+		return nil
+	}
+	l = reflect.NewAt(l.Type(), unsafe.Pointer(l.UnsafeAddr())).Elem()
+	for i := 0; i < l.Len(); i++ {
+		if d, ok := l.Index(i).Interface().(*ggql.Directive); ok {
+			out = append(out, d)
+		}
+	}
+	return
 }
